@@ -508,9 +508,10 @@ class Emitter:
 
     def walk(self, stmts, opened, closed):
         """opened: list of live MarkOpened variable names in opening order.
-        closed: list of live MarkClosed variable names."""
+        closed: dict name -> number of this function's open nodes below the mark (live MarkClosed
+        variables; copied per block, so shadowing `let`s stay local to their block)."""
         opened = list(opened)
-        closed = list(closed)
+        closed = dict(closed)
         for s in stmts:
             if s.kind == "call" and s.var:
                 if s.method in ("open", "open_before"):
@@ -518,10 +519,10 @@ class Emitter:
                         opened.remove(s.var)
                     opened.append(s.var)
                 elif s.method in ("mark", "close"):
-                    if s.var not in closed:
-                        closed.append(s.var)
-                    # number of open nodes of this function below the mark
-                    self.depth[s.var] = len([v for v in opened if not (s.method == "close" and re.match(r"\s*%s\s*," % re.escape(v), s.args))])
+                    below = [v for v in opened if not (s.method == "close" and re.match(r"\s*%s\s*," % re.escape(v), s.args))]
+                    closed[s.var] = len(below)
+            if s.kind == "assign" and s.src in closed:
+                closed[s.var] = closed[s.src]
             if s.kind == "call" and s.method == "close":
                 m = re.match(r"\s*(\w+)\s*,", s.args)
                 if m and m.group(1) in opened:
@@ -558,9 +559,11 @@ class Emitter:
             e += ".drop_last()"
         inv.append("%s == %s.rstack()" % (e, o))
         inv += ["%s.pos >= p_%d" % (r, k), "(%s.pos == p_%d ==> %s.current == c_%d)" % (r, k, r, k)]
+        if self.f.parent is not None and "lhs" in closed and closed["lhs"] == 0:
+            inv.append("lhs.0 == lhs0.0")
         for v in closed:
             if uses_after(ix, self.f, s.i_kw, v):
-                drops = max(0, len(opened) - self.depth.get(v, len(opened)))
+                drops = max(0, len(opened) - closed[v])
                 stk = "%s.rstack()" % r + ".drop_last()" * drops
                 inv.append("%s.mk(%s.0 as int) && top_of(%s) < %s.0 && %s <= %s.0" % (r, v, stk, v, B, v))
         ent = self.interp.loop_entry.get(id(s))
@@ -669,7 +672,7 @@ def annotate(ix, ed, report, skeleton_only=False):
         if re.search(r"\.\s*(error_since_advance|in_ordered_choice)\s*=[^=]", txt):
             start += "        proof { reveal(Parser::twf); reveal(Parser::mk); }\n"
         ed.insert(st[f.i_body].e, start)
-        closed0 = ["lhs"] if f.parent is not None else []
+        closed0 = {"lhs": 0} if f.parent is not None else {}
         em.walk(body, [], closed0)
         unk = []
 
